@@ -17,8 +17,6 @@ Four TLC pipelines over random (POMDP, stochastic controller) cases:
            property Monotone over the per-iteration value tables of bounded policy iteration.
 The verdicts are TLC's; Python builds msdm objects, runs the real code and projects to integers.
 """
-import copy
-import itertools
 import math
 import random
 from fractions import Fraction as F
@@ -94,15 +92,15 @@ DISTS = ["dict", "dict_zeros", "det", "uniform"]
 # case generation
 # ==============================================================================================================
 def rand_controller(rng, K, NO, NN, QD, ED, ND, by_action=True):
-    psi = [gen.rand_row(rng, K, QD, sparse=0.35) for _ in range(NN)]
+    psi = [gen.rand_row(rng, K, QD, sparse=0.3) for _ in range(NN)]
     if NN >= 2 and K >= 2 and len({tuple(r) for r in psi}) == 1 and rng.random() < 0.8:
         r = list(psi[0])
         rng.shuffle(r)
         psi[-1] = r if r != psi[0] else r[::-1]
     eta = []
     for n in range(NN):
-        shared = [gen.rand_row(rng, NN, ED, sparse=0.45) for _ in range(NO)]
-        eta.append([[list(shared[o]) if not by_action else gen.rand_row(rng, NN, ED, sparse=0.45)
+        shared = [gen.rand_row(rng, NN, ED, sparse=0.3) for _ in range(NO)]
+        eta.append([[list(shared[o]) if not by_action else gen.rand_row(rng, NN, ED, sparse=0.3)
                      for o in range(NO)] for _ in range(K)])
     iota = gen.rand_row(rng, NN, ND, sparse=0.15)
     return dict(NN=NN, QD=QD, psi=psi, ED=ED, eta=eta, ND=ND, iota=iota)
@@ -119,7 +117,7 @@ def tree_depth(branch, budget, cap=3):
 def int_system(m, cut):
     """The integer system of FSC!System (same construction, used ONLY to bound magnitudes)."""
     N, K, NO, NN = m["N"], m["K"], m["NO"], m["NN"]
-    states = [s for s in range(N) if not (cut and m["abs"][s])]
+    states = [s for s in range(N) if m["lst"][s] and not (cut and m["abs"][s])]
     pairs = [(n, s) for n in range(NN) for s in states]
     CD = m["QD"] * m["PD"] * m["OD"] * m["ED"]
     rows = []
@@ -129,7 +127,7 @@ def int_system(m, cut):
             c = sum(m["psi"][n][a] * m["P"][s][a][t] * sum(m["O"][a][t][o] * m["eta"][n][a][o][k] for o in range(NO))
                     for a in range(K))
             row.append((m["GD"] * CD if (n, s) == (k, t) else 0) - m["GN"] * c)
-        rw = sum(m["psi"][n][a] * sum(m["P"][s][a][t] * m["R"][s][a][t] for t in range(N)) for a in range(K))
+        rw = sum(m["psi"][n][a] * sum(m["P"][s][a][t] * m["R"][s][a][t] for t in range(N) if m["lst"][t]) for a in range(K))
         row.append(m["GD"] * m["OD"] * m["ED"] * rw)
         g = 0
         for x in row:
@@ -172,28 +170,31 @@ def make_case(rng, tier, want):
     OD = rng.choice([2, 2, 2, 3, 4])
     QD = rng.choice([2, 2, 3, 4])
     ED = rng.choice([2, 2, 2, 3])
-    NN = rng.choice([1, 2, 2, 2, 3]) if want == "value" else rng.choice([1, 2, 2, 2, 2, 3, 3])
+    NN = rng.choice([1, 2, 2, 2, 2, 3, 3])
     n_na = rng.choice([1, 2, 2, 2, 3])
     n_abs = rng.choice([0, 1, 1, 1, 2])
+    K = rng.choice([1, 2, 2, 2, 3])
+    NO = rng.choice([1, 2, 2, 2, 3])
+    if want == "value":
+        # the exact solve has NN * (non-absorbing states) unknowns: at most 6, and Cramer's determinants must fit
+        # 30-bit integers (value_magnitude_ok decides; small denominators pass most often)
+        NN = rng.choice([1, 2, 2, 2, 3, 3])
+        if NN * n_na > 6:
+            n_na = 6 // NN
+        PD, OD = rng.choice([(2, 2), (2, 2), (2, 1), (1, 2), (3, 2), (2, 3), (4, 2), (2, 4)])
+        QD, ED = rng.choice([(2, 2), (2, 2), (2, 1), (1, 2), (3, 2), (4, 2), (2, 3)])
+        K = rng.choice([1, 2, 2, 2, 3])
+        NO = rng.choice([1, 2, 2, 2, 3])
     if n_na + n_abs < 2:
         n_na = 2
     if n_na + n_abs > 4:
         n_abs = 1
-    K = rng.choice([1, 2, 2, 2, 3])
-    NO = rng.choice([1, 2, 2, 2, 3])
-    if want == "value":
-        # keep the exact solve inside 30-bit integers: mostly <= 4 unknowns, small denominators
-        if NN * n_na > 4 and rng.random() < 0.8:
-            NN = max(1, 4 // n_na)
-        if NN * n_na > 2:
-            PD, OD = rng.choice([(2, 2), (2, 2), (2, 1), (1, 2), (3, 2)])
-            QD, ED = rng.choice([(2, 2), (2, 2), (2, 1), (3, 2), (1, 2), (4, 2)])
     PD, OD = max(PD, 1), max(OD, 1)
     obs_kind = rng.choice(["random"] * 7 + ["single", "identity", "uninformative"])
     ghost = rng.random() < 0.35
     GN, GD = rng.choice([(1, 2), (1, 2), (3, 4), (9, 10), (1, 3)])
     m = pb.rand_pomdp(rng, n_na=n_na, n_abs=n_abs, K=K, NO=NO, PD=PD, OD=OD, GN=GN, GD=GD,
-                      ghost=ghost, ID=rng.choice([2, 3, 4]), obs_kind=obs_kind, init_on_abs=0.2)
+                      ghost=ghost, ID=rng.choice([2, 3, 4]), obs_kind=obs_kind, init_on_abs=0.2, sparse=0.3)
     by_action = rng.random() < 0.7
     m.update(rand_controller(rng, m["K"], m["NO"], NN, QD, ED, rng.choice([2, 3, 4]), by_action=by_action))
     rep = dict(labels=rng.choice(LABELS), alabels=rng.choice(LABELS), olabels=rng.choice(LABELS),
@@ -204,6 +205,8 @@ def make_case(rng, tier, want):
     if not rep["explicit_list"] and not closed and rng.random() < 0.8:
         rep["explicit_list"] = True
     m["open"] = 0 if (rep["explicit_list"] or closed) else 1    # an absorbing state's successor is outside the list
+    listed = pb.listed_states(m, rep["explicit_list"])
+    m["lst"] = [1 if s in listed else 0 for s in range(m["N"])]
     machs = []
     if want in ("hist", "both"):
         budget = 90 if tier == "quick" else 260
@@ -217,8 +220,8 @@ def make_case(rng, tier, want):
         if value_magnitude_ok(m, True):
             machs.append("value")
     m.setdefault("D", 1)
-    m["full"] = 1 if ("value" in machs and not m["open"] and value_magnitude_ok(m, False)) else 0
-    if "value" in machs and m["ghost"] and not m["full"] and not m["open"]:
+    m["full"] = 1 if ("value" in machs and value_magnitude_ok(m, False)) else 0
+    if "value" in machs and m["ghost"] and not m["full"]:
         machs.remove("value")        # ghost instances must be classifiable (uncut table available)
     if not machs:
         return None
@@ -249,7 +252,7 @@ def make_cases(rng, n, tier, want, ctx=None):
 def py_value(m, cut):
     N, K, NO, NN = m["N"], m["K"], m["NO"], m["NN"]
     g = F(m["GN"], m["GD"])
-    states = [s for s in range(N) if not (cut and m["abs"][s])]
+    states = [s for s in range(N) if m["lst"][s] and not (cut and m["abs"][s])]
     pairs = [(n, s) for n in range(NN) for s in states]
     psi = [[F(x, m["QD"]) for x in r] for r in m["psi"]]
     A, b = [], []
@@ -264,7 +267,8 @@ def py_value(m, cut):
                     F(m["O"][a][t][o], m["OD"]) * F(m["eta"][n][a][o][k], m["ED"]) for o in range(NO))
             row.append((1 if (n, s) == (k, t) else 0) - g * pr)
         A.append(row)
-        b.append(sum(psi[n][a] * F(m["P"][s][a][t], m["PD"]) * m["R"][s][a][t] for a in range(K) for t in range(N)))
+        b.append(sum(psi[n][a] * F(m["P"][s][a][t], m["PD"]) * m["R"][s][a][t]
+                     for a in range(K) for t in range(N) if m["lst"][t]))
     x = pyoracle._solve(A, b) if pairs else []
     V = [[F(0)] * N for _ in range(NN)]
     for i, (n, s) in enumerate(pairs):
@@ -428,6 +432,8 @@ def np_value(m, listed, A, E, cut):
                 pt = m["P"][s][a][t] / m["PD"]
                 if pt == 0:
                     continue
+                if t not in listed:
+                    continue            # only an absorbing state's declared row can leave the list (uncut chain)
                 r[i] += pa * pt * m["R"][s][a][t]
                 if t not in states:
                     continue
@@ -547,7 +553,8 @@ def judge_hist(ctx, idx, case, recs, tamper=None):
             v = to_np(rag).reshape(-1)
             tot = float(v.sum())
             post = [x / sum(rec["ag"]) for x in rec["ag"]]
-            if node_ok and (len(v) != m["NN"] or not tot > 0 or any(abs(v[n] / tot - post[n]) > 1e-9 for n in range(m["NN"]))):
+            if node_ok and not R.failed and (len(v) != m["NN"] or not tot > 0
+                                             or any(abs(v[n] / tot - post[n]) > 1e-9 for n in range(m["NN"]))):
                 ctx.drift("agent-state-is-not-the-node-posterior",
                           {"case": digest(case), "hist": hist0, "got": v.tolist(), "posterior": rec["ag"]})
         except Exception:                                            # noqa: BLE001
@@ -709,7 +716,7 @@ def run_fsc_tlc(ctx, cases, what, extra_invs=()):
     return res, per
 
 
-def judge_fsc_cases(ctx, cases, *, tamper_hist=None, tamper_value=None, mutate_records=None, xcheck_every=7):
+def judge_fsc_cases(ctx, cases, *, tamper_hist=None, tamper_value=None, mutate_records=None, xcheck_every=7, only=None):
     res, per = run_fsc_tlc(ctx, cases, "mc: controller-object machine over every action/observation history "
                                        "+ exact value tables over the batch")
     if mutate_records is not None:
@@ -720,13 +727,13 @@ def judge_fsc_cases(ctx, cases, *, tamper_hist=None, tamper_value=None, mutate_r
         for mach in c["m"]["machs"]:
             if mach not in got:
                 raise TLCFailure(f"no {mach} records for case {i}")
-        if "value" in got:
+        if "value" in got and only in (None, "value"):
             rec = got["value"][()]["rec"]
             if mutate_records is None:
                 crosscheck_value(i, c["m"], rec)
                 ctx.count("oracle_crosschecks_value")
             judge_value(ctx, i, c, rec, tamper=tamper_value)
-        if "hist" in got:
+        if "hist" in got and only in (None, "hist"):
             for h, r in got["hist"].items():
                 nx += 1
                 if nx % xcheck_every == 0 and mutate_records is None:
@@ -794,7 +801,9 @@ def record_episodes(ctx, cases, rng, per_case, tamper=None, fixed=None):
                 steps = []
                 for st in traj[:-1]:
                     r = float(st.reward)
-                    steps.append({"s": B.sidx(st.state) + 1, "a": B.aidx(st.action) + 1, "ns": B.sidx(st.nextstate) + 1,
+                    ad = c.action_dist(st.agentstate)        # the distribution the action of this step was drawn from
+                    adq = [min(max(int(round(float(ad.prob(B.alabel[a])) * SA)), -LIM // 8), LIM // 8) for a in range(m["K"])]
+                    steps.append({"adq": adq, "s": B.sidx(st.state) + 1, "a": B.aidx(st.action) + 1, "ns": B.sidx(st.nextstate) + 1,
                                   "o": B.oidx(st.observation) + 1,
                                   "rq": int(round(r * SR)) if math.isfinite(r) and abs(r) < 1e5 else LIM // 4,
                                   "agq": quant_dist(st.agentstate, SA), "nagq": quant_dist(st.nextagentstate, SA)})
@@ -839,9 +848,15 @@ def judge_run(ctx, cases, rng, per_case, tamper=None, mutate_data=None, fixed=No
         if v["bad"]:
             if v["bad"].endswith(":unconditioned-on-action"):
                 sig = "C09:StochasticFiniteStateController.next_agentstate:unconditioned-on-action"
-                what = (f"run_on produced the action/observation history {[(s['a'] - 1, s['o'] - 1) for s in ep['steps']]} "
-                        f"whose probability under the controller is 0: an action was drawn that no node of positive "
-                        f"posterior weight can choose (the object's node weights were not conditioned on the actions taken)")
+                hh = [(s["a"] - 1, s["o"] - 1) for s in ep["steps"]]
+                if v["bad"].startswith("action-impossible"):
+                    what = (f"run_on produced the action/observation history {hh} whose probability under the controller "
+                            f"is 0: an action was drawn that no node of positive posterior weight can choose (the object's "
+                            f"node weights were not conditioned on the actions taken)")
+                else:
+                    what = (f"run_on, history {hh}: at some step the action was drawn from a distribution that is not the "
+                            f"controller's action mixture given the history so far; it is the mixture under node weights "
+                            f"that were not conditioned on the actions taken (C09_Run conjunct {v['bad']})")
             else:
                 sig = f"C09:POMDPPolicy.run_on:{v['bad']}"
                 what = f"episode rejected by C09_Run at conjunct {v['bad']}: {ep}"
@@ -901,6 +916,8 @@ def make_learner_case(rng, ghost_p=0.2):
                dist=rng.choice(DISTS), odist=rng.choice(DISTS), arr="numpy", eta3=False, with_init=True)
     m.update(NN=1, QD=1, psi=[[1] + [0] * (m["K"] - 1)], ED=1, eta=[[[[1]] * m["NO"]] * m["K"]], ND=1, iota=[1],
              D=1, full=0, open=0, machs=[])
+    listed = pb.listed_states(m, rep["explicit_list"])
+    m["lst"] = [1 if s in listed else 0 for s in range(m["N"])]
     return {"m": m, "rep": rep}
 
 
@@ -927,6 +944,7 @@ def run_learner(ctx, case, cfg, tamper=None):
                 if node == 0:
                     tabs.append(np.array(V, dtype=float))
                 return base(pomdp, V, node, **kw)
+            np.random.seed(cfg["seed"] + 54321)         # seed=0 falls back to numpy's global generator (C13's clause)
             res = bpi.FSCBoundedPolicyIteration(controller_state_count=cfg["size"], iterations=cfg["iterations"],
                                                 seed=cfg["seed"], improve_node_fn=improve).train_on(W.p)
             rep_value = float(res.value)
@@ -1026,7 +1044,12 @@ def judge_learners(ctx, jobs, tamper=None, mutate_data=None):
                 "reported-table:absorbing-states-not-cut": "reported state_controller_value is the value of the chain that continues through absorbing states",
                 "value-lowered-between-iterations": "bounded policy iteration lowered the value of a node at a state between two iterations",
             }.get(v["bad"], v["bad"])
-            ctx.violation(f"C09:{name}.train_on:{v['bad']}", f"{name}({cfg}): {what}"[:700],
+            if v["bad"].endswith(":absorbing-states-not-cut"):
+                # the learner reports what the evaluator computes: same call site, same input shape as pipeline A/value
+                sig = "C09:stochastic_fsc_policy_evaluation_exact:absorbing-states-not-cut"
+            else:
+                sig = f"C09:{name}.train_on:{v['bad']}"
+            ctx.violation(sig, f"{name}({cfg}): {what}"[:700],
                           {"kind": "learn", "case": case, "cfg": cfg, "trace": run})
             continue
         ctx.validated += 1
@@ -1066,14 +1089,14 @@ def run(ctx):
         "bounded policy iteration's per-iteration tables are observed through the public improve_node_fn parameter (table at the start of each iteration)",
         "gradient ascent's optimiser trajectory is not judged (only its outputs)",
     ]
-    n_hist, n_value = (110, 260) if quick else (400, 1500)
+    n_hist, n_value = (160, 300) if quick else (500, 1500)
     cases = make_cases(rng, n_hist, ctx.tier, "hist", ctx) + make_cases(rng, n_value, ctx.tier, "value", ctx)
     chunk = 200 if quick else 250
     for k in range(0, len(cases), chunk):
         judge_fsc_cases(ctx, cases[k:k + chunk])
     hist_cases = [c for c in cases if "hist" in c["m"]["machs"]]
-    judge_run(ctx, hist_cases[: (110 if quick else 400)], rng, per_case=4 if quick else 8)
-    n_learn = 210 if quick else 1500
+    judge_run(ctx, hist_cases[: (160 if quick else 500)], rng, per_case=4 if quick else 8)
+    n_learn = 300 if quick else 1800
     cfgs = learner_configs(rng, n_learn, ctx.tier)
     jobs = [(make_learner_case(rng), cfg) for cfg in cfgs]
     step = 250
@@ -1085,9 +1108,7 @@ def replay(ctx, case):
     kind = case["kind"]
     c = case["case"]
     if kind in ("hist", "value"):
-        c = copy.deepcopy(c)
-        c["m"]["machs"] = [kind]
-        judge_fsc_cases(ctx, [c], xcheck_every=1)
+        judge_fsc_cases(ctx, [c], xcheck_every=1, only=kind)
     elif kind == "run":
         judge_run(ctx, [c], None, per_case=1, fixed=case["cfg"])
     elif kind == "learn":
@@ -1110,14 +1131,9 @@ def selftest(ctx):
         return V
     before = len(ctx.violations)
     judge_fsc_cases(ctx, [c for c in clean if "value" in c["m"]["machs"]][:6], tamper_value=tv)
-    ok &= any("stochastic_fsc_policy_evaluation_exact" in v[0] for v in ctx.violations[before:])
+    ok &= any(v[0].endswith(("node-state-value", "absorbing-state-value")) for v in ctx.violations[before:])
 
-    # (2) the controller handed to msdm has two action rows swapped (instance field corrupted)
-    def swap(c):
-        c = copy.deepcopy(c)
-        mb = copy.deepcopy(c["m"])
-        c["m_build"] = mb
-        return c
+    # (2) the controller object handed to the replay has its action columns reversed (instance field corrupted)
     before = len(ctx.violations)
 
     def th(ctrl):
@@ -1129,7 +1145,7 @@ def selftest(ctx):
     hc = [c for c in cases if "hist" in c["m"]["machs"] and c["m"]["K"] >= 2
           and any(r != r[::-1] for r in c["m"]["psi"])][:4]
     judge_fsc_cases(ctx, hc, tamper_hist=th)
-    ok &= any("StochasticFiniteStateController" in v[0] for v in ctx.violations[before:])
+    ok &= any("action_dist:history-probability" in v[0] for v in ctx.violations[before:])
 
     # (3) one expected value emitted by TLC swapped
     def mutate(per):
@@ -1140,7 +1156,7 @@ def selftest(ctx):
                 return
     before = len(ctx.violations)
     judge_fsc_cases(ctx, [c for c in clean if "value" in c["m"]["machs"]][:3], mutate_records=mutate)
-    ok &= any("stochastic_fsc_policy_evaluation_exact" in v[0] for v in ctx.violations[before:])
+    ok &= any(v[0].endswith(("node-state-value", "absorbing-state-value")) for v in ctx.violations[before:])
 
     # (4) run_on: drop one event from a recorded episode / continue after an absorbing state
     def drop(data):
@@ -1150,7 +1166,7 @@ def selftest(ctx):
                 return
     before = len(ctx.violations)
     judge_run(ctx, [c for c in cases if "hist" in c["m"]["machs"]][:8], random.Random(3), per_case=4, mutate_data=drop)
-    ok &= any("run_on" in v[0] for v in ctx.violations[before:])
+    ok &= any("POMDPPolicy.run_on:" in v[0] for v in ctx.violations[before:])
 
     # (5) learners: reported value corrupted / one per-iteration table lowered
     def tl(A, E, I, rep_value, rtab, tabs):
@@ -1160,7 +1176,7 @@ def selftest(ctx):
     jobs = [(make_learner_case(lr), cfg) for cfg in learner_configs(lr, 6, "quick")]
     jobs = [(c, g) for c, g in jobs if not c["m"]["ghost"]]
     judge_learners(ctx, jobs, tamper=tl)
-    ok &= any("reported-value" in v[0] for v in ctx.violations[before:])
+    ok &= any(v[0].endswith("train_on:reported-value") for v in ctx.violations[before:])
 
     def lower(runs):
         for r in runs:
@@ -1172,4 +1188,17 @@ def selftest(ctx):
     before = len(ctx.violations)
     judge_learners(ctx, jobs, mutate_data=lower)
     ok &= any("value-lowered" in v[0] for v in ctx.violations[before:])
+
+    # (6) model level: the update that does not condition on the action taken is NOT the controller's semantics
+    #     (TLC must find a history on which it differs from the node posterior)
+    demo = [c for c in cases if "hist" in c["m"]["machs"] and c["m"]["NN"] >= 2][:6]
+    batch = []
+    for c in demo:
+        mm = dict(c["m"])
+        mm["machs"] = ["hist"]
+        batch.append(mm)
+    res = run_tlc(ctx.workdir / "demo", "C09_FSC", CFG_FSC + "INVARIANT NaiveAgrees\n", files={"batch.json": batch},
+                  env={"BATCH_FILE": "batch.json"})
+    ctx.add_tlc(res, "model-level demonstration: invariant NaiveAgrees (unconditioned update = node posterior) must fail")
+    ok &= "NaiveAgrees" in res.violated and not any(v in FSC_INVS for v in res.violated)
     return bool(ok)
